@@ -94,8 +94,25 @@ WithinVerdict(r) ==
     ELSE IF r.sub # under THEN "within-is-not-the-restriction-of-the-listing"
     ELSE "ok"
 
+\* a user rewrite rule (fpy2.rewrite.Rewrite) aimed by index: k = matches find_all lists (the programs are chosen so that matches do not
+\* overlap and rewriting creates none), left = matches listed afterwards
+RuleVerdict(r) ==
+    IF r.k = -1 THEN "listing-the-matches-failed"
+    ELSE IF r.where = -999 THEN
+        (IF r.k = 0 THEN "ok"
+         ELSE IF r.outcome # "ok" THEN "listed-site-rejected"
+         ELSE IF r.left # 0 THEN "a-site-not-rewritten" ELSE "ok")
+    ELSE IF r.where < 0 \/ r.where >= r.k THEN
+        (IF r.outcome = "TransformReferenceError" THEN "ok" ELSE "bad-index-accepted")
+    ELSE IF r.outcome # "ok" THEN "listed-site-rejected"
+    ELSE IF r.left > r.k - 1 THEN "site-not-touched"
+    ELSE IF r.left < r.k - 1 THEN "touched-another-site"
+    ELSE IF ~r.cur THEN "cursor-and-index-name-different-sites"
+    ELSE "ok"
+
 ApplyVerdict(r) ==
     IF "kind" \in DOMAIN r /\ r.kind = "expr" THEN ExprVerdict(r)
+    ELSE IF "kind" \in DOMAIN r /\ r.kind = "rule" THEN RuleVerdict(r)
     ELSE IF "kind" \in DOMAIN r /\ r.kind = "within" THEN WithinVerdict(r) ELSE
     LET E == r.edits
         K == Len(r.sites)
